@@ -366,10 +366,10 @@ class World:
         except Exception:
             return None
 
-    def inventory(self):
+    def inventory(self, only=None):
         out = {}
         for h, lf in self.objs.items():
-            if h.startswith('lf:'):
+            if h.startswith('lf:') and (only is None or h == 'lf:' + only):
                 try:
                     out[h[3:]] = [[(getattr(o, 'name', None), getattr(o, 'copy_number', None)) for o in getattr(lf, k)]
                                   for k in ('channels', 'frames', 'origins')]
@@ -464,8 +464,9 @@ class World:
         if self.warn_count:
             r['warn'] = self.warn_count
             r['warns'] = self.warns
-        if op.get('inv') or op['op'] in ('add', 'nf_data', 'set', 'set_prop'):
-            r['inv'] = self.inventory()
+        if op['op'] in ('add', 'nf_data'):
+            # public read properties of the logical file the op targeted (only that one: observation must not couple clients)
+            r['inv'] = self.inventory(op.get('lf'))
         return r
 
     def _handles_needed(self, op):
@@ -475,7 +476,7 @@ class World:
         o = op['op']
         if o in ('add_lf', 'write'):
             need.append('file:' + op['fid'])
-        if o in ('add', 'nf_data'):
+        if o in ('add', 'nf_data', 'read_props'):
             need.append('lf:' + op['lf'])
         if o in ('set', 'set_prop', 'get'):
             need.append(op['h'])
@@ -530,6 +531,11 @@ class World:
         obj = self.objs[op['h']]
         attr = getattr(obj, op['attr'])
         setattr(attr, op.get('part', 'value'), self.codec.dec(op['v']))
+
+    def op_read_props(self, op, r):
+        """A pure read of the public properties of a logical file (must not influence later files)."""
+        lf = self.objs['lf:' + op['lf']]
+        r['read'] = [len(lf.channels), len(lf.frames), len(lf.origins), lf.defining_origin is not None]
 
     def op_set_prop(self, op, r):
         obj = self.objs[op['h']]
